@@ -242,12 +242,46 @@ class ESpec:
             return [[h.strip() for h in self.extra['repr_raw'].split(',')]]
         return [[self.repr]] if self.repr else []
 
-    def model_lines(self):
-        b = lambda x: '1' if x else '0'
+    def strum_groups(self, strum_path='strum', err_forms=None):
+        """the enum-level #[strum(..)] attributes AS WRITTEN: list of groups (one per attribute) of (kind, value) items"""
+        items = []
+        if self.style is not None:
+            items.append(('sa', self.style))
+        if self.ci:
+            items.append(('ci', None))
+        if self.prefix is not None:
+            items.append(('pfx', self.prefix))
+        if self.phf:
+            items.append(('phf', None))
+        if self.err:
+            items += [('pty', None), ('pfn', None)]
+        if self.cis:
+            items.append(('cis', None))
+        if strum_path != 'strum':
+            items.append(('crate', strum_path))
+        lay = self.extra.get('eattr_layout', 'one')
+        if lay in ('rev', 'revsplit'):
+            items = list(reversed(items))
+        if not items:
+            return []
+        return [[it] for it in items] if lay in ('split', 'revsplit') else [items]
+
+    def raw_model_line(self):
+        def item(it):
+            k, val = it
+            if k == 'sa':
+                return 'sa~' + hx(val)
+            if k == 'pfx':
+                return 'pfx~' + hx(val)
+            return k
+        attrs = '|'.join(';'.join(item(it) for it in g) for g in self.strum_groups()) or '-'
         ra = '/'.join('+'.join(h.replace('(', '').replace(')', '') for h in a) for a in self.repr_attrs()) or '-'
-        out = ['enum %s name=%s style=%s ci=%s prefix=%s phf=%s err=%s repr=%s cis=%s dname=%s dvis=%d reprattrs=%s'
-               % (self.id, hx(self.name), self.style or '-', b(self.ci), opt(self.prefix), b(self.phf), b(self.err),
-                  self.repr or '-', b(self.cis), opt(self.extra.get('dname')), self.extra.get('dvis', 0), ra)]
+        return ('rawenum %s name=%s attrs=%s reprattrs=%s dname=%s dvis=%d'
+                % (self.id, hx(self.name), attrs, ra, opt(self.extra.get('dname')), self.extra.get('dvis', 0)))
+
+    def model_lines(self):
+        # the enum header as written: the Lean side collects the attributes itself (StrumModel/Collect.lean: collectEnum)
+        out = [self.raw_model_line()]
         for v in self.variants:
             # the variant as written: the Lean side collects the attributes itself (StrumModel/Collect.lean)
             out.append(v.raw_model_line(self))
